@@ -197,6 +197,27 @@ impl<'tcx> Cx<'tcx> {
                 o.push(("def", J::Str(dpath(tcx, uv.def))));
             }
         }
+        // byte-array constants (format_args! templates are `&[u8; N]`)
+        if let ty::Ref(_, inner, _) = ty.kind() {
+            if let ty::Array(elem, len) = inner.kind() {
+                if *elem == tcx.types.u8 {
+                    if let Const::Val(mir::ConstValue::Scalar(rustc_middle::mir::interpret::Scalar::Ptr(ptr, _)), _) = c.const_ {
+                        if let Some(n) = len.try_to_target_usize(tcx) {
+                            if let Some(rustc_middle::mir::interpret::GlobalAlloc::Memory(alloc)) =
+                                tcx.try_get_global_alloc(ptr.provenance.alloc_id())
+                            {
+                                let off = ptr.into_raw_parts().1.bytes() as usize;
+                                let a = alloc.inner();
+                                if off + (n as usize) <= a.len() {
+                                    let bytes = a.inspect_with_uninit_and_ptr_outside_interpreter(off..off + n as usize);
+                                    o.push(("bytes", J::Arr(bytes.iter().map(|b| J::Num(*b as i128)).collect())));
+                                }
+                            }
+                        }
+                    }
+                }
+            }
+        }
         if let Const::Val(mir::ConstValue::Scalar(rustc_middle::mir::interpret::Scalar::Ptr(ptr, _)), _) = c.const_ {
             if let Some(rustc_middle::mir::interpret::GlobalAlloc::Static(sdid)) =
                 tcx.try_get_global_alloc(ptr.provenance.alloc_id())
